@@ -4,7 +4,7 @@
 //! identical whatever the output buffer contained, and the state left behind is the same.
 
 use crate::common::*;
-use crate::{ensure, ensure_eq_bytes};
+use crate::{ensure, ensure_eq_bytes, pick};
 use vp_base::obj::*;
 use vp_base::tape::{self, Tape};
 
@@ -28,7 +28,7 @@ fn nontrivial_prefill(pre: (u8, u32)) -> bool {
 }
 
 fn block_modes(ctx: &Ctx, t: &mut Tape<'_>, r: &mut Report) -> CheckResult {
-    let suite = ctx.pick_suite(t, |_| true);
+    let suite = pick!(ctx, t, r, |_| true);
     let modes = modes_for(suite);
     let (mode, dir) = modes[t.idx(modes.len())];
     let f = suite.block_mode(mode, dir).unwrap();
@@ -76,7 +76,7 @@ fn block_modes(ctx: &Ctx, t: &mut Tape<'_>, r: &mut Report) -> CheckResult {
 fn async_oneshot(ctx: &Ctx, t: &mut Tape<'_>, r: &mut Report) -> CheckResult {
     let mode = t.pick(&[Mode::Cfb, Mode::Cfb8]);
     let dir = t.pick(&[Direction::Enc, Direction::Dec]);
-    let suite = ctx.pick_suite(t, |_| true);
+    let suite = pick!(ctx, t, r, |_| true);
     let f = suite.block_mode(mode, dir).unwrap();
     let bs = suite.info.bs;
     let key = gen_key(t, suite);
@@ -101,7 +101,7 @@ fn async_oneshot(ctx: &Ctx, t: &mut Tape<'_>, r: &mut Report) -> CheckResult {
 }
 
 fn padded(ctx: &Ctx, t: &mut Tape<'_>, r: &mut Report) -> CheckResult {
-    let suite = ctx.pick_suite(t, |_| true);
+    let suite = pick!(ctx, t, r, |_| true);
     let modes = modes_for(suite);
     let (mode, dir) = modes[t.idx(modes.len())];
     let f = suite.block_mode(mode, dir).unwrap();
@@ -139,7 +139,7 @@ fn padded(ctx: &Ctx, t: &mut Tape<'_>, r: &mut Report) -> CheckResult {
 }
 
 fn wrappers(ctx: &Ctx, t: &mut Tape<'_>, r: &mut Report) -> CheckResult {
-    let suite = ctx.pick_suite(t, |_| true);
+    let suite = pick!(ctx, t, r, |_| true);
     let f = &suite.streams[t.idx(suite.streams.len())];
     let bs = suite.info.bs;
     let key = gen_key(t, suite);
@@ -168,7 +168,7 @@ fn wrappers(ctx: &Ctx, t: &mut Tape<'_>, r: &mut Report) -> CheckResult {
 }
 
 fn cores(ctx: &Ctx, t: &mut Tape<'_>, r: &mut Report) -> CheckResult {
-    let suite = ctx.pick_suite(t, |_| true);
+    let suite = pick!(ctx, t, r, |_| true);
     let f = &suite.streams[t.idx(suite.streams.len())];
     let bs = suite.info.bs;
     let key = gen_key(t, suite);
@@ -200,7 +200,7 @@ fn cores(ctx: &Ctx, t: &mut Tape<'_>, r: &mut Report) -> CheckResult {
 }
 
 fn cts(ctx: &Ctx, t: &mut Tape<'_>, r: &mut Report) -> CheckResult {
-    let suite = ctx.pick_suite(t, |s| !s.cts.is_empty());
+    let suite = pick!(ctx, t, r, |s| s.has_cts());
     let v = CtsVariant::ALL[t.idx(6)];
     let f = suite.cts(v).unwrap();
     let bs = suite.info.bs;
